@@ -27,7 +27,16 @@ type ErrChainCase struct {
 	B     []ErrStep `json:"b,omitempty"`
 	Fresh []ErrStep `json:"fresh,omitempty"` // extra fresh leaf targets
 	FR    evid.Hex  `json:"fr,omitempty"`    // bytes later decoded (FastRead) into every protocol exception that wraps a cause
+	// Poison: before anything else PrependError is called with an error value whose Error method panics (a nil
+	// pointer of a type that dereferences itself); the panic reaches the caller, and the calls that follow must
+	// not see anything of that call
+	Poison bool `json:"poison,omitempty"`
 }
+
+// derefErr panics in Error() when it is a nil pointer.
+type derefErr struct{ msg string }
+
+func (e *derefErr) Error() string { return e.msg }
 
 // multiErr is an error of an uncomparable dynamic type (as produced by error-list helpers).
 type multiErr []error
@@ -290,6 +299,12 @@ func checkErrChain(c ErrChainCase, cv *cov) (v *evid.Violation) {
 	excluded := 0
 	var depth, kinds int
 	body := func() {
+		if c.Poison {
+			var np *derefErr
+			if p, _ := evid.Safe(func() { _ = thrift.PrependError("left over from a call that panicked: ", np) }); p == nil {
+				cv.label("prepend_of_nil_pointer_error_did_not_panic")
+			}
+		}
 		var nodes []*enode
 		rootA, viol := buildChain(c.A, &nodes, &excluded)
 		if viol != nil {
@@ -435,6 +450,12 @@ func genErrChain(t *rapid.T, maxDepth int) []ErrStep {
 }
 
 func genErrChainCase(t *rapid.T) ErrChainCase {
+	c := genErrChainCase0(t)
+	c.Poison = rapid.IntRange(0, 3).Draw(t, "poison") == 0
+	return c
+}
+
+func genErrChainCase0(t *rapid.T) ErrChainCase {
 	c := ErrChainCase{A: genErrChain(t, 5)}
 	if rapid.Bool().Draw(t, "second") {
 		c.B = genErrChain(t, 3)
